@@ -14,6 +14,7 @@ import (
 	"strconv"
 	"strings"
 
+	"golang.org/x/crypto/bcrypt"
 	"golang.org/x/text/unicode/norm"
 
 	"github.com/postalsys/muti-metroo/internal/filetransfer"
@@ -23,7 +24,8 @@ import (
 // ValidateDownloadMetadata + ReadFileForDownload, ValidateUploadMetadata + WriteUploadedFile, Browse)
 // on real directory trees with symbolic links inside a throw-away sandbox R.
 //
-//	reset <enabled> <n> <pattern hex>...      -> ok       ('@' at the start of a pattern / path = R)
+//	reset <enabled> <maxsize> <password hex|-> <n> <pattern hex>...   -> ok   ('@' at the start of a pattern / path = R)
+//	(every request carries the presented password as a trailing hex token; ul also the declared size)
 //	pre dir <p> | pre file <p> <content> | pre sym <p> <target> | pre hard <p> <old>   -> ok|err
 //	val <path hex> <nfc hex>                  -> ok | err <class>
 //	dl  <path> <nfc>                          -> ok file:<physical path>:<content> | ok dir:<physical path> | err <class>
@@ -40,6 +42,7 @@ var c26Base, c26Root string
 var c26Case int
 var c26H *filetransfer.StreamHandler
 var c26Tok = map[string]string{}
+var c26Hashes = map[string]string{}
 
 const c26Chain = 48
 
@@ -184,6 +187,12 @@ func c26Class(msg string) string {
 		return "disabled"
 	case strings.HasPrefix(msg, "path is required"):
 		return "pathrequired"
+	case strings.HasPrefix(msg, "authentication required"):
+		return "authrequired"
+	case strings.HasPrefix(msg, "authentication failed"):
+		return "authfailed"
+	case strings.HasPrefix(msg, "file too large"), strings.Contains(msg, "exceeds max size"):
+		return "toolarge"
 	case strings.HasPrefix(msg, "symlink target not allowed"), strings.HasPrefix(msg, "cannot resolve symlink"):
 		return "symlink"
 	case strings.HasPrefix(msg, "path contains dangerous characters"):
@@ -213,12 +222,24 @@ func c26Run(line string) string {
 	switch f[0] {
 	case "reset":
 		c26Setup()
-		n, _ := strconv.Atoi(f[2])
+		max, _ := strconv.ParseInt(f[2], 10, 64)
+		n, _ := strconv.Atoi(f[4])
 		var pats []string
 		for i := 0; i < n; i++ {
-			pats = append(pats, c26At(string(unhexTok(f[3+i]))))
+			pats = append(pats, c26At(string(unhexTok(f[5+i]))))
 		}
-		c26H = filetransfer.NewStreamHandler(filetransfer.StreamConfig{Enabled: f[1] == "1", AllowedPaths: pats})
+		hash := ""
+		if pw := unhexTok(f[3]); len(pw) > 0 {
+			h, ok := c26Hashes[string(pw)]
+			if !ok {
+				b, err := bcrypt.GenerateFromPassword(pw, bcrypt.MinCost)
+				must(err)
+				h = string(b)
+				c26Hashes[string(pw)] = h
+			}
+			hash = h
+		}
+		c26H = filetransfer.NewStreamHandler(filetransfer.StreamConfig{Enabled: f[1] == "1", AllowedPaths: pats, MaxFileSize: max, PasswordHash: hash})
 		return "ok"
 	case "pre":
 		var err error
@@ -251,7 +272,7 @@ func c26Run(line string) string {
 		}
 		return "ok"
 	case "dl":
-		meta := &filetransfer.TransferMetadata{Path: path}
+		meta := &filetransfer.TransferMetadata{Path: path, Password: string(unhexTok(f[3]))}
 		if err := c26H.ValidateDownloadMetadata(meta); err != nil {
 			return "err " + c26Class(err.Error())
 		}
@@ -291,7 +312,8 @@ func c26Run(line string) string {
 		return "ok file:" + c26Esc(who) + ":" + tok
 	case "ul":
 		before, _ := c26Listing()
-		meta := &filetransfer.TransferMetadata{Path: path, Mode: 0o644, Size: -1}
+		decl, _ := strconv.ParseInt(f[5], 10, 64)
+		meta := &filetransfer.TransferMetadata{Path: path, Mode: 0o644, Size: decl, Password: string(unhexTok(f[4]))}
 		res := "ok"
 		if err := c26H.ValidateUploadMetadata(meta); err != nil {
 			return "err " + c26Class(err.Error())
@@ -308,7 +330,7 @@ func c26Run(line string) string {
 		}
 		return res + " changed=" + c26Join(ch)
 	case "ls":
-		resp := c26H.Browse(&filetransfer.BrowseRequest{Action: "list", Path: path, Limit: 200})
+		resp := c26H.Browse(&filetransfer.BrowseRequest{Action: "list", Path: path, Limit: 200, Password: string(unhexTok(f[3]))})
 		if resp.Error != "" {
 			return "err " + c26Class(resp.Error)
 		}
@@ -318,7 +340,7 @@ func c26Run(line string) string {
 		}
 		return "ok names=" + c26Join(names)
 	case "st":
-		resp := c26H.Browse(&filetransfer.BrowseRequest{Action: "stat", Path: path})
+		resp := c26H.Browse(&filetransfer.BrowseRequest{Action: "stat", Path: path, Password: string(unhexTok(f[3]))})
 		if resp.Error != "" {
 			return "err " + c26Class(resp.Error)
 		}
@@ -337,7 +359,7 @@ func c26Run(line string) string {
 		return fmt.Sprintf("ok sym=%s dir=%s target=%s", b2s[e.IsSymlink], b2s[e.IsDir], c26Esc(t))
 	case "cm":
 		_, before := c26Listing()
-		resp := c26H.Browse(&filetransfer.BrowseRequest{Action: "chmod", Path: path, Mode: "0711"})
+		resp := c26H.Browse(&filetransfer.BrowseRequest{Action: "chmod", Path: path, Mode: "0711", Password: string(unhexTok(f[3]))})
 		_, after := c26Listing()
 		var ch []string
 		for p, m := range after {
@@ -356,7 +378,7 @@ func c26Run(line string) string {
 		return "ok changed=" + c26Join(ch)
 	case "rm":
 		before, _ := c26Listing()
-		resp := c26H.Browse(&filetransfer.BrowseRequest{Action: "delete", Path: path, Recursive: f[3] == "1"})
+		resp := c26H.Browse(&filetransfer.BrowseRequest{Action: "delete", Path: path, Recursive: f[3] == "1", Password: string(unhexTok(f[4]))})
 		after, _ := c26Listing()
 		if resp.Error != "" {
 			return "err " + c26Class(resp.Error)
@@ -375,10 +397,28 @@ func c26Run(line string) string {
 func c26Gen(w *bufio.Writer, seed int64, tier string) {
 	r := newRng(seed)
 	hx := func(s string) string { return hexTok([]byte(s)) }
+	cfgPw := ""
 	req := func(op, p string, extra ...string) {
 		fmt.Fprintf(w, "%s %s %s", op, hx(p), hx(norm.NFC.String(p)))
 		for _, e := range extra {
 			fmt.Fprintf(w, " %s", e)
+		}
+		if op != "val" { // the presented password: right most of the time, else absent / wrong
+			pw := cfgPw
+			if cfgPw != "" {
+				switch r.intn(8) {
+				case 0:
+					pw = ""
+				case 1:
+					pw = cfgPw + "x"
+				}
+			} else if r.chance(10) {
+				pw = "unasked"
+			}
+			fmt.Fprintf(w, " %s", hx(pw))
+		}
+		if op == "ul" {
+			fmt.Fprintf(w, " %d", r.pick(-1, -1, 0, 5, 100, 101, 1000000))
 		}
 		fmt.Fprintln(w)
 	}
@@ -397,7 +437,12 @@ func c26Gen(w *bufio.Writer, seed int64, tier string) {
 		if r.chance(4) {
 			en = 0
 		}
-		fmt.Fprintf(w, "reset %d %d", en, len(pats))
+		cfgPw = ""
+		if r.chance(30) {
+			cfgPw = r.pickS("pw", "s3cret pass", "p\xc3\xa4ss")
+		}
+		maxSize := r.pick(0, 0, 0, 100, 60, 30000)
+		fmt.Fprintf(w, "reset %d %d %s %d", en, maxSize, hx(cfgPw), len(pats))
 		for _, p := range pats {
 			fmt.Fprintf(w, " %s", hx(p))
 		}
@@ -405,7 +450,7 @@ func c26Gen(w *bufio.Writer, seed int64, tier string) {
 		wildcard := len(pats) == 1 && pats[0] == "*"
 		// tree: /data (allowed area), /secret and /etc (outside), symbolic links at several depths
 		tok := 0
-		file := func(p string) { tok++; fmt.Fprintf(w, "pre file %s t%dx%d\n", p, tok, r.pick(0, 3, 10, 50)) }
+		file := func(p string) { tok++; fmt.Fprintf(w, "pre file %s t%dx%d\n", p, tok, r.pick(0, 3, 10, 50, 60, 61, 100, 101, 150)) }
 		fmt.Fprintln(w, "pre dir data")
 		fmt.Fprintln(w, "pre dir data/pub")
 		fmt.Fprintln(w, "pre dir data/in1")
@@ -497,7 +542,7 @@ func c26Gen(w *bufio.Writer, seed int64, tier string) {
 				req("dl", p)
 			case 5, 6:
 				tok++
-				req("ul", p, fmt.Sprintf("u%dx%d", tok, r.pick(1, 7, 40000)))
+				req("ul", p, fmt.Sprintf("u%dx%d", tok, r.pick(1, 7, 59, 60, 61, 99, 100, 101, 40000)))
 			case 7, 8:
 				req("ls", p)
 			case 9:
@@ -517,7 +562,8 @@ func c26Gen(w *bufio.Writer, seed int64, tier string) {
 			if tier != "thorough" && r.chance(35) {
 				continue
 			}
-			fmt.Fprintf(w, "reset 1 1 %s\n", hx(r.pickS("@/data", "@/data/**", "@/data/*")))
+			cfgPw = ""
+			fmt.Fprintf(w, "reset 1 0 - 1 %s\n", hx(r.pickS("@/data", "@/data/**", "@/data/*")))
 			fmt.Fprintln(w, "pre dir data")
 			fmt.Fprintln(w, "pre dir data/pub")
 			fmt.Fprintln(w, "pre dir secret")
@@ -548,7 +594,7 @@ func c26Gen(w *bufio.Writer, seed int64, tier string) {
 	vp := []string{"@/t", "@/t/x", "@/tt", "@/t/a/b", "@/t/abc", "@/t/a", "@/t/b", "@/t/d", "@/t/a.txt", "@/t/a/b.txt", "@/t/axxbyyc", "@/t/*", "@/tx", "@/t/x/x", "@/t/q/x", "@/", "@/t/\xc3\xa9", "@/t/e\xcc\x81", "@/t/\xff", "@/t/-", "@/t/]", "@/t/[a-", "@/t/a\\", "@/t/..", "@/t/a..b", "@/t/x/../y", "@/t/./x", "@/t//x", "t/x", "@/t/abc/d/e/f"}
 	for i := 0; i < val; i++ {
 		n := r.pick(1, 1, 2)
-		fmt.Fprintf(w, "reset 1 %d", n)
+		fmt.Fprintf(w, "reset 1 0 - %d", n)
 		for k := 0; k < n; k++ {
 			fmt.Fprintf(w, " %s", hx(pp[r.intn(len(pp))]))
 		}
